@@ -128,6 +128,13 @@ impl LdapMsgActor {
                                 })
                                 .await
                         {
+                            // the user exists already and the administrator disabled it
+                            if user_dto.enable == Some(false) {
+                                return Err(anyhow::anyhow!(
+                                    "user {} is disabled",
+                                    &bind_req.user_name
+                                ));
+                            }
                             namespace_privilege = user_dto.namespace_privilege;
                         }
                     }
